@@ -14,7 +14,8 @@ long verif_syscall(long nr, long a, long b);
 #undef syscall
 #include "stubs/base.h"
 #include "stubs/lock.h"
-static int g_shared_kick_fd = -1, g_kick_closed_unlocked;
+static int g_shared_kick_fd = -1, g_kick_closed_unlocked, g_track_kick_create, g_kick_created_unlocked;
+#define VERIF_ON_OPEN(kind)	do { if (g_track_kick_create && !g_lock_held) g_kick_created_unlocked++; } while (0)
 #define VERIF_ON_CLOSE(fd)	do { if ((fd) == g_shared_kick_fd && !g_lock_held) g_kick_closed_unlocked++; } while (0)
 #include "stubs/fd_model.h"
 #include "stubs/epoll_model.h"
@@ -259,7 +260,10 @@ void h_event_rx_on(void)
 
 	v_build_kick();
 	k_ep[2].present = 0;
+	g_track_kick_create = 1;
 	r = iv_fd_epoll_event_rx_on(&v_state);
+	g_track_kick_create = 0;
+	__CPROVER_assert(g_kick_created_unlocked == 0, "[C08,C07,C14] the process-wide kick descriptor is created (and published) inside the critical section that counted its first user: a thread that registers in between must not find the count raised and the descriptor missing");
 	__CPROVER_assert(iv_active_fd_refcount == verif_in.refcount + 1, "[C18] the shared descriptor is reference counted");
 	__CPROVER_assert(!g_lock_held && g_lock_acq == 1, "[C08,C14] the reference count and the descriptor are changed under their mutex");
 	__CPROVER_assert(IMPLIES(verif_in.refcount > 0, k_opens == 2), "[C18] an existing shared descriptor is reused");
@@ -270,7 +274,7 @@ void h_event_rx_on(void)
 		__CPROVER_assert(k_ep[2].present && k_ep[2].events == 0 && k_ep[2].ptr == (void *)&v_state, "[C08] registered disarmed (empty mask) under this thread's kick tag");
 		__CPROVER_assert(v_state.numobjs == verif_in.numobjs + 1, "[C07] the armed transport counts as one loop object");
 	} else {
-		__CPROVER_assert(v_state.numobjs == verif_in.numobjs, "[C07] failure leaves the object count alone");
+		__CPROVER_assert(v_state.numobjs == verif_in.numobjs, "[C07,C15,C08] failure leaves the object count alone (the caller falls back to the raw transport, which does its own accounting)");
 	}
 	CANARY();
 }
